@@ -343,3 +343,6 @@ NONTRIVIAL = "one obligation per ordering/wiring clause and per Err/Ok return si
 EXPLANATION += (
     ' Round-5: R3 also requires the exit test of an iteration to precede the deadline test with no sleep between them, and reports (known finding D46) that a kill reaches the direct child only while the error path waits for readers that end when the whole process tree has let go of the pipe; R4 checks the stream names of ProcessStream::as_str; R5 shares all of C02-R5.'
 )
+EXPLANATION += (
+    ' Round 6: R6 shares C15-R9 (a null stream is /dev/null, not an unread pipe); R7 shares C12-R3 (a stored text gets a slot for its bytes).'
+)
